@@ -1,10 +1,10 @@
 SPECIFICATION ISpec
 CONSTANTS
   Procs = {1,2}
-  Objs = {1}
+  Objs = {1,2}
   Keys = {1}
   MaxCalls = 2
-  Variant = "nocheck"
+  Variant = "shared"
   Algo = "rm"
-INVARIANTS FnEndOK
+INVARIANTS CallEndOK
 CHECK_DEADLOCK TRUE
